@@ -4,7 +4,7 @@ TIE = ("hand-written Gallina model tied to /repo by the correspondence run of th
        "vm_compute inside Coq on the inputs the implementation ran under CPython 3.7-3.10) and by "
        "harness/translate_src.py for the items in coq/Gen/Src.v, harness/translate_lines.py for the statement-level translations in "
        "coq/Gen/SrcLines.v (expand_items, collapse_items, _parse_bytes), translate_args.py / translate_key.py / translate_norm.py / translate_header.py for "
-       "Gen/SrcArgs.v, SrcKey.v, SrcNorm.v, SrcHeader.v, translate_toarg.py / translate_fromarg.py / translate_tables.py / translate_tojson.py / translate_flags.py for Gen/SrcToArg.v, SrcFromArg.v, SrcTables.v, SrcToJson.v, SrcFlags.v, translate_stage1.py / translate_linemap.py / translate_cli.py for Gen/SrcStage1.v, SrcLineMap.v, SrcCli.v (each translator states the meanings it declares for Python constructs in its header comment; a construct outside its fragment makes it decline and the stored reference translation of the pinned source is used, the correspondence run then being the only tie for that item) and harness/translate_deps.py for the reference graph in coq/Gen/SrcDeps.v")
+       "Gen/SrcArgs.v, SrcKey.v, SrcNorm.v, SrcHeader.v, translate_toarg.py / translate_fromarg.py / translate_tables.py / translate_tojson.py / translate_flags.py for Gen/SrcToArg.v, SrcFromArg.v, SrcTables.v, SrcToJson.v, SrcFlags.v, translate_stage1.py / translate_linemap.py / translate_iter.py / translate_cli.py for Gen/SrcStage1.v, SrcLineMap.v, SrcIter.v, SrcCli.v (each translator states the meanings it declares for Python constructs in its header comment; a construct outside its fragment makes it decline and the stored reference translation of the pinned source is used, the correspondence run then being the only tie for that item) and harness/translate_deps.py for the reference graph in coq/Gen/SrcDeps.v")
 COMMON_TB = [KERNEL, TIE,
              "harness (worker.py, enc.py, common.py): serialisation of inputs/results, canonicalisation, oracles",
              "axioms: none declared; Print Assumptions output of every property theorem is in coverage.print_assumptions"]
@@ -225,6 +225,10 @@ PROPS["C13"]["level_text"] += (
 PROPS["C10"]["level_text"] += (
     "; the LineMapping methods used around the codec (pop_additional_line as its caller sees it, add_additional_line, modify_line_offsets) are "
     "re-translated (Gen/SrcLineMap.v) and tied for all mappings: C10_line_mapping_methods_are_the_source")
+PROPS["C14"]["level_text"] += (
+    "; the iteration API is tied to the source by proof as well: C14_iteration_is_the_source - blocks_to_constants (docstring slot, the loops over "
+    "instructions and additional args through the translated from_arg, to_tuple), __iter__ and all_code_data, re-translated into Gen/SrcIter.v on "
+    "every run, are the model's functions for all data")
 PROPS["C04"]["level_text"] += (
     "; the four functions of _args.py are tied to the source by proof for ALL inputs (C04_args_functions_are_the_source: Gen/SrcArgs.v, "
     "re-translated on every run, equals Model/Args.v)")
